@@ -114,7 +114,10 @@ def run(mod, tier, seed, replay=None):
     samples = []
     discards = {}
     stage = {}
+    reach_hits = set()
     for c, r in zip(cases, results):
+        for f_ln in (r.get("reach") or []):
+            reach_hits.add((f_ln[0], int(f_ln[1])))
         st = r["status"]
         if st == "ok":
             n_ok += 1
@@ -229,6 +232,11 @@ def run(mod, tier, seed, replay=None):
             "inconclusive_reasons": reasons,
             "repo": _env.REPO,
         }
+        try:
+            from . import reach as _reach
+            cov["mechanism_reach"] = _reach.summarize(prop, sorted(reach_hits))
+        except Exception as e:
+            cov["mechanism_reach"] = "unavailable: %r" % (e,)
         if getattr(mod, "EXHAUSTIVE", False):
             cov["exhaustive"] = True
         cov.update({k: v for k, v in extra.items() if k not in ("monitors", "distinct")})
